@@ -31,6 +31,7 @@ type intEnv struct {
 	opaque    func(ssa.Value) (int64, bool) // rule-supplied inputs for designated sub-expressions
 	watch     func(ssa.Instruction, intEnv) // called for every instruction of every block the walker executes
 	skipLoops bool                          // step over inner loops whose condition cannot be evaluated
+	choice    map[*ssa.Phi]ssa.Value        // edge taken for phis that are neither integers nor slices
 	offs      map[ssa.Value]int64           // for slice-valued phis: start offset within bases[phi]
 	bases     map[ssa.Value]ssa.Value
 }
@@ -523,6 +524,9 @@ func walkBlocks(b, from *ssa.BasicBlock, env intEnv, stop func(*ssa.BasicBlock) 
 					break
 				}
 				if !isIntegerT(p.Type()) && !isBoolT(p.Type()) {
+					if env.choice != nil {
+						env.choice[p] = p.Edges[pi]
+					}
 					if n, ok := lenOfValue(p.Edges[pi], env, 0); ok {
 						env.lens[p] = n
 						if env.offs != nil {
